@@ -179,7 +179,7 @@ def frames_clause(model, rep, funcs):
     if f is not None:
         calls = [c for c in calls_in(f) if (dotted(c.func) or "").endswith("_compose_affine_matrices")]
         rep.instance("F.sim", f.loc())
-        ok = len(calls) == 1 and len(calls[0].args) >= 2 and norm_src(calls[0].args[1]) == "mol.rotator.inv()"
+        ok = len(calls) == 1 and Matcher(f).has("_compose_affine_matrices($$c, mol.rotator.inv(), ...)")
         rep.ob("F", f.anchor, "the fragment (output, tomogram axes) samples the template (input, molecule axes): rotation handed to the matrix is the inverse of "
                "the molecule's rotation (W -> M)", ok, norm_src(calls[0].args[1]) if calls and len(calls[0].args) > 1 else "", node=f.node, fn=f, clause="2 frames",
                stmt="def _prep_iterators rotation")
@@ -198,7 +198,7 @@ def frames_clause(model, rep, funcs):
     if h is not None:
         calls = [c for c in calls_in(h) if (dotted(c.func) or "").endswith("_compose_affine_matrices")]
         rep.instance("F.sim", h.loc())
-        ok = len(calls) == 1 and len(calls[0].args) >= 2 and norm_src(calls[0].args[1]) == "rotator.inv() * glob_rotator"
+        ok = len(calls) == 1 and Matcher(h).has("_compose_affine_matrices($$c, rotator.inv() * glob_rotator, ...)")
         rep.ob("F", h.anchor, "projection: template is sampled through inverse molecule rotation composed with the projection frame", ok,
                norm_src(calls[0].args[1]) if calls and len(calls[0].args) > 1 else "", node=h.node, fn=h, clause="2 frames", stmt="def _simulate_projection_one rotation")
 
